@@ -1,4 +1,5 @@
 import Pyunicorn.Lemmas.Access
+import Pyunicorn.Lemmas.AccessX
 import Pyunicorn.Lemmas.WhileSafe
 import Pyunicorn.Lemmas.Binary64
 import Pyunicorn.Lemmas.LineIdx
@@ -1540,3 +1541,188 @@ example : outcome { ldDiag with ij2I := fun i j N => N - i + j + 1 }
     3 0 ⟨3, 3, 0, 1, 0, 3⟩ [[1, 1, 1], [1, 1, 1], [1, 1, 1]] [] 0 [] = none := by decide +kernel
 
 end Pyunicorn.LineIdx
+
+/-! # Round 5: `Surrogates.test_mutual_information` from the two arrays down to the kernel, over
+IEEE data (NaN, `±inf`, finite)
+
+Round 3 put infinities into the *symbol* (`symbolX_in_range`); the wrapper-level theorem
+`tmiCall_rejects_or_safe` stayed on `Option Rat` data (NaN | finite) and the claim for infinite data
+was "put together by hand".  `tmiCallX` models the wrapper as it is written — NaN-propagating
+`min` / `max` of each array, `np.min` / `np.max` of the two, `1. / (range_max - range_min)` with
+Cython's ZeroDivisionError — reading *which* extremes enter from the generated tables
+(`tmi_range_min`, `tmi_range_max`, `tmi_scaling`; translate/c20_py.py). -/
+namespace Pyunicorn.Access
+open Pyunicorn.Generated.StructC20Py
+
+/-- the conversion executed for a sample is defined when the scaling is not negative and `range_min`
+is a lower bound of the sample (or one of them is NaN) -/
+theorem convOKX_of (s m x : XR) (nb : Int) (hnb : 1 ≤ nb) (hb : nb ≤ (2 : Int) ^ (32 - 1))
+    (hs : s.notNeg = true)
+    (hmx : m.isNan = true ∨ x.isNan = true ∨ XR.le m x = true) : convOKX 32 s m nb x = true := by
+  have hr : (XR.mul s (XR.sub x m)).notNeg = true :=
+    XR.mul_notNeg _ _ hs (XR.sub_notNeg m x hmx)
+  unfold convOKX
+  generalize XR.mul s (XR.sub x m) = r at hr
+  cases r with
+  | nan => rfl
+  | pinf => rfl
+  | ninf => simp [XR.notNeg] at hr
+  | fin q =>
+    have hq : 0 ≤ q := by simpa [XR.notNeg] using hr
+    simp only
+    split
+    · rename_i hlt
+      have hnbpos : (0 : Rat) < (nb : Rat) := by exact_mod_cast (by omega : (0:Int) < nb)
+      apply castDefined_of_bounds (nb := nb) _ _ hb
+      · exact Rat.mul_nonneg hq (Rat.le_of_lt hnbpos)
+      · calc q * (nb : Rat) < 1 * (nb : Rat) := Rat.mul_lt_mul_of_pos_right hlt hnbpos
+          _ = nb := by simp
+    · rfl
+
+/-- **The kernel on IEEE data, for every scaling and range_min of the right kind.**  For all shapes,
+`1 ≤ n_bins < 2^31`, every `scaling` that is not negative (`≥ 0`, `+inf`, NaN — this covers
+`1/(max-min)` computed exactly as well as its floating-point outcomes `0` after overflow of the range
+and `+inf` for a subnormal range) and every `range_min` that is NaN or a lower bound of all non-NaN
+samples of both arrays: no undefined float→int conversion is executed and every access of
+`_test_mutual_information_fast` lies inside the arrays the wrapper allocates. -/
+theorem tmiKernelX_safe (s m : XR) (N T : Nat) (nb : Int) (dO dS : XData)
+    (hnb : 1 ≤ nb) (hbig : nb < (2 : Int) ^ 31) (hs : s.notNeg = true)
+    (hm : m.isNan = true ∨ ∀ x, (x ∈ dO.flatten ∨ x ∈ dS.flatten) → x.isNan = true ∨ XR.le m x = true) :
+    tmiKernelX s m N T nb dO dS = .safe := by
+  have hb32 : nb ≤ (2 : Int) ^ (32 - 1) := by
+    have : (2 : Int) ^ (32 - 1) = (2 : Int) ^ 31 := by decide
+    omega
+  have hcast : ((nb.toNat : Nat) : Int) = nb := Int.toNat_of_nonneg (by omega)
+  have hmx : ∀ (d : XData), (∀ x ∈ d.flatten, x ∈ dO.flatten ∨ x ∈ dS.flatten) → ∀ i k,
+      m.isNan = true ∨ (d.at i k).isNan = true ∨ XR.le m (d.at i k) = true := by
+    intro d hd i k
+    rcases hm with h | h
+    · exact Or.inl h
+    · rcases XData.at_mem d i k with hn | hmem
+      · exact Or.inr (Or.inl hn)
+      · rcases h _ (hd _ hmem) with h' | h'
+        · exact Or.inr (Or.inl h')
+        · exact Or.inr (Or.inr h')
+  have inO : ∀ x ∈ dO.flatten, x ∈ dO.flatten ∨ x ∈ dS.flatten := fun _ h => Or.inl h
+  have inS : ∀ x ∈ dS.flatten, x ∈ dO.flatten ∨ x ∈ dS.flatten := fun _ h => Or.inr h
+  have conv : ∀ (d : XData), (∀ x ∈ d.flatten, x ∈ dO.flatten ∨ x ∈ dS.flatten) →
+      convsOKX 32 N T s m nb d.at = true := by
+    intro d hd
+    simp only [convsOKX, List.all_eq_true, List.mem_range]
+    intro i _ k _
+    exact convOKX_of s m _ nb hnb hb32 hs (hmx d hd i k)
+  have key : ∀ (d : XData), (∀ x ∈ d.flatten, x ∈ dO.flatten ∨ x ∈ dS.flatten) → ∀ i k,
+      0 ≤ (symbolX s m nb (d.at i k)).getD 0
+      ∧ (symbolX s m nb (d.at i k)).getD 0 < ((nb.toNat : Nat) : Int) := by
+    intro d hd i k
+    obtain ⟨v, hv, h0, h1⟩ := symbolX_in_range s m (d.at i k) nb hnb hs (hmx d hd i k)
+    rw [hv, hcast]
+    exact ⟨h0, h1⟩
+  unfold tmiKernelX
+  rw [conv dO inO, conv dS inS]
+  simp only [Bool.and_self, if_true]
+  exact verdictOf_ne_oob (tmi_in_bounds N T nb.toNat _ _
+    (fun i k _ _ => key dO inO i k) (fun i k _ _ => key dS inS i k))
+
+/-- what the generated range terms evaluate to -/
+theorem rangeFromX_generated (dO dS : XData) :
+    rangeFromX dO dS tmi_range_min tmi_range_max
+      = some (XR.min2 (xrMin dO.flatten) (xrMin dS.flatten),
+              XR.max2 (xrMax dO.flatten) (xrMax dS.flatten)) := by
+  rfl
+
+/-- the minimum over both arrays is NaN or a lower bound of every sample of both -/
+theorem min2_xrMin_le (a b : List XR) :
+    (XR.min2 (xrMin a) (xrMin b)).isNan = true ∨
+      ∀ x, (x ∈ a ∨ x ∈ b) → XR.le (XR.min2 (xrMin a) (xrMin b)) x = true := by
+  rcases XR.min2_spec (xrMin a) (xrMin b) with h | ⟨ha, hb⟩
+  · exact Or.inl h
+  · right
+    intro x hx
+    rcases hx with hx | hx
+    · rcases xrMin_le a with hn | hl
+      · rw [(XR.le_notNan ha).2] at hn; cases hn
+      · exact XR.le_trans' ha (hl x hx)
+    · rcases xrMin_le b with hn | hl
+      · rw [(XR.le_notNan hb).2] at hn; cases hn
+      · exact XR.le_trans' hb (hl x hx)
+
+/-- `range_min ≤ range_max` unless one of them is NaN -/
+theorem range_ordered (a b : List XR) :
+    (XR.min2 (xrMin a) (xrMin b)).isNan = true ∨ (XR.max2 (xrMax a) (xrMax b)).isNan = true
+    ∨ XR.le (XR.min2 (xrMin a) (xrMin b)) (XR.max2 (xrMax a) (xrMax b)) = true := by
+  rcases XR.min2_spec (xrMin a) (xrMin b) with h | ⟨ha, _⟩
+  · exact Or.inl h
+  rcases XR.max2_spec (xrMax a) (xrMax b) with h | ⟨hA, _⟩
+  · exact Or.inr (Or.inl h)
+  right; right
+  -- `a` is not empty, as its minimum is not NaN
+  have hne : a ≠ [] := by
+    intro e; subst e
+    have := (XR.le_notNan ha).2
+    rw [xrMin_nil] at this; cases this
+  obtain ⟨x, hx⟩ := List.exists_mem_of_ne_nil _ hne
+  rcases xrMin_le a with hn | hl
+  · rw [(XR.le_notNan ha).2] at hn; cases hn
+  rcases xrMax_ge a with hn | hg
+  · rw [(XR.le_notNan hA).1] at hn; cases hn
+  exact XR.le_trans' (XR.le_trans' ha (hl x hx)) (XR.le_trans' (hg x hx) hA)
+
+/-- **`Surrogates.test_mutual_information` is safe or raises for every pair of shapes, every
+`n_bins ∈ ℤ` and arrays holding any IEEE values** — NaN, `+inf`, `-inf`, finite, in any mixture —
+with the range taken from where the current source takes it (the generated terms).  No hypothesis
+left: `range_min` is NaN or a lower bound of both arrays (`min2_xrMin_le`), `range_max - range_min`
+is not negative (`range_ordered`, `XR.sub_notNeg`), so its reciprocal is not negative or the division
+raises (`XR.recip_notNeg`), and `tmiKernelX_safe` applies. -/
+theorem tmiCallX_rejects_or_safe (N T N2 T2 : Nat) (nb : Int) (dO dS : XData) :
+    tmiCallX tmi_range_min tmi_range_max tmi_scaling N T N2 T2 nb dO dS ≠ .oob := by
+  unfold tmiCallX
+  split
+  · simp
+  rename_i hnb
+  split
+  · simp
+  split
+  · simp
+  rename_i hbig
+  split
+  · simp
+  rw [if_neg (by decide)]
+  rw [rangeFromX_generated]
+  simp only
+  have hd : (XR.sub (XR.max2 (xrMax dO.flatten) (xrMax dS.flatten))
+      (XR.min2 (xrMin dO.flatten) (xrMin dS.flatten))).notNeg = true :=
+    XR.sub_notNeg _ _ (range_ordered dO.flatten dS.flatten)
+  split
+  · simp
+  · rename_i s hs
+    rw [tmiKernelX_safe _ _ N T nb dO dS (by omega) (by omega) (XR.recip_notNeg hd hs)]
+    · simp
+    · rcases min2_xrMin_le dO.flatten dS.flatten with h | h
+      · exact Or.inl h
+      · exact Or.inr (fun x hx => Or.inr (h x hx))
+
+/-- non-vacuity and sharpness.  (1) original `[0, +inf]`, surrogates `[-inf, 1]`: `range_min = -inf`,
+`range_max = +inf`, `scaling = 1/inf = 0`, every rescaled value is `0·inf = NaN` — safe; (2) the same
+with a NaN: range and scaling NaN — safe; (3) all `+inf`: `inf - inf = NaN` — safe; (4) constant data:
+ZeroDivisionError; (5) a `range_min` that leaves the surrogates' minimum out (the shape of seeded
+change C20-5) on finite data: a negative bin number — `oob`; (6) a `range_min` taken from the original
+only, surrogates holding `-inf`: `range_min = 0`, `scaling = 1`, the sample `-inf` reaches `(int)` as
+`-inf` — undefined conversion, `oob`; (7) the same at the kernel. -/
+theorem tmiCallX_witness :
+    tmiCallX tmi_range_min tmi_range_max tmi_scaling 1 2 1 2 4
+        [[.fin 0, .pinf]] [[.ninf, .fin 1]] = .safe
+    ∧ tmiCallX tmi_range_min tmi_range_max tmi_scaling 1 2 1 2 4
+        [[.fin 0, .fin 1]] [[.ninf, .nan]] = .safe
+    ∧ tmiCallX tmi_range_min tmi_range_max tmi_scaling 1 2 1 2 4
+        [[.pinf, .pinf]] [[.pinf, .pinf]] = .safe
+    ∧ tmiCallX tmi_range_min tmi_range_max tmi_scaling 1 2 1 2 4
+        [[.fin 3, .fin 3]] [[.fin 3, .fin 3]] = .raise
+    ∧ tmiCallX ("np.min", [("original_data", "min"), ("surrogates", "max")]) tmi_range_max tmi_scaling
+        1 2 1 2 4 [[.fin 0, .fin 1]] [[.fin (-2), .fin 1]] = .oob
+    ∧ tmiCallX ("np.min", [("original_data", "min"), ("original_data", "min")]) tmi_range_max tmi_scaling
+        1 2 1 2 4 [[.fin 0, .fin 1]] [[.ninf, .fin 1]] = .oob
+    ∧ tmiKernelX (.fin 1) (.fin 0) 1 2 4 [[.fin 0, .fin 1]] [[.ninf, .fin 1]] = .oob := by
+  decide +kernel
+
+end Pyunicorn.Access
